@@ -52,15 +52,55 @@ ASSUMED = ['strtol: trusted body model in opt.impl.cpp (value and end pointer of
 
 def P(name, enforce, **kw):
     kw.setdefault('unwind', 6)
-    kw.setdefault('defines', ['VALIDATE_ARG_T=%s' % VALIDATE_ARG_T.replace(' ', '_SP_')] if ' ' not in VALIDATE_ARG_T else [])
+    kw['defines'] = list(kw.get('defines', [])) + (['VALIDATE_ARG_T=%s' % VALIDATE_ARG_T.replace(' ', '_SP_')] if ' ' not in VALIDATE_ARG_T else [])
     return Proof(name, impl=IMPL, spec=SPEC, enforce=enforce, replace=ENV, rules=RULES, assumed=ASSUMED, drop_flags=['--conversion-check'],
                  note='static_cast<T>(long) is an implementation-defined conversion (not undefined): conversion check off; whether it loses information is what the postcondition decides. '
                       'strchr on the literals "-" / "~!-" is unwound 6 with unwinding assertions (complete for these literals)',
                  expect=[enforce.split('/')[1] + '.postcondition'], **kw)
 
 
+POL_RULES = {'process_option_line': [
+    ('D8', [(r'auto args = split_args\(', 'vec_string args = split_args(', 'auto of std::vector<std::string>'),
+            (r'const auto &cmd = to_lower\(', 'const std::string cmd = to_lower(', 'auto of std::string (reference to a temporary -> value)'),
+            (r'const auto token = find_token_name\(', 'const E_Token token = find_token_name(', 'auto of E_Token'),
+            (r'auto       this_line_number = ', 'unsigned this_line_number = ', 'auto of unsigned'),
+            (r'const auto &include_path    = args\[1\];', 'const std::string &include_path    = args[1];', 'auto of std::string'),
+            (r'auto \*const lang_arg = ', 'const char *const lang_arg = ', 'auto of const char'),
+            (r'auto \*const lang_name = ', 'const char *const lang_name = ', 'auto of const char'),
+            (r'auto vargs = split_args\(', 'vec_string vargs = split_args(', 'auto of std::vector<std::string>'),
+            (r'const auto oi = option_map.find\(', 'const option_map_iter oi = option_map.find(', 'auto of the registry iterator')]),
+    ('D2', {'types': ['std::string']})]}
+
+
+def pol_proof():
+    kwl = 'g_kw, g_kw_wrong_token, g_kw_misplaced'
+    return Proof('process_option_line', impl='contracts/C16/pol.impl.cpp', spec='contracts/C16/pol.spec.c', harness='h_process_option_line',
+                 enforce='process_option_line/process_option_line_contract', rules=POL_RULES, canaries=7,
+                 loops=[dict(fn='process_option_line', id=0, vars=['i'], assigns='i, ' + kwl, decreases='g_nargs - i',
+                             inv='1 <= i && i <= g_nargs && g_kw == i - 1 && g_kw_wrong_token == 0 && g_kw_misplaced == 0'),
+                        dict(fn='process_option_line', id=1, vars=['i'], assigns='i, ' + kwl, decreases='g_nargs - i',
+                             inv='2 <= i && i <= g_nargs && g_kw == i - 2 && g_kw_wrong_token == 0 && g_kw_misplaced == 0'),
+                        dict(fn='process_option_line', id=2, vars=['i'], assigns='i, g_ext, g_ext_misplaced, g_diag', decreases='g_nargs - i',
+                             inv='2 <= i && i <= g_nargs && g_ext_misplaced == 0 && g_diag == 0 && (g_lang_known ? g_ext == i - 2 : (g_ext == 0 && i == 2))')],
+                 functions=['option.cpp:process_option_line', 'option.cpp:option_level'],
+                 assumed=['split_args: any number of arguments of any text', 'to_lower: the lower-cased first argument (any command word)',
+                          'extension_add fails exactly when the language name is unknown', 'process_option_line_compat_0_*: handle the line or not (arbitrary)',
+                          'read_version_part contract (proved: proof read_version_part)', 'GenericOption::read: contracts of K2/K3', 'add_keyword, load_option_file: recorded, not verified'],
+                 expect=['process_option_line_contract.postcondition', 'loop_invariant_step', 'loop_decreases'],
+                 mutants=[('unknown_option_silent', r'''w\("unknown option '%s'", args\[0\]\.c_str\(\)\);''', '', 'postcondition'),
+                          ('set_needs_only_two_args', r'if \(args\.size\(\) < 3\)', 'if (args.size() < 2)', 'postcondition|container precondition|pointer'),
+                          ('type_skips_first_word', r'for \(size_t i = 1; i < args\.size\(\); \+\+i\)', 'for (size_t i = 2; i < args.size(); ++i)', 'postcondition|loop_invariant'),
+                          ('version_part_unchecked', r'read_version_part\(vargs\[0\]\.c_str\(\), major\)', '((major = std::stoi(vargs[0])), true)', 'stoi|postcondition'),
+                          ('file_ext_goes_on_after_unknown_language', r'''w\("file_ext: unknown language '%s'", lang_arg\);\n            break;''', '''w("file_ext: unknown language '%s'", lang_arg);''', 'postcondition|loop_invariant'),
+                          ('empty_include_path_loaded', r'if \(include_path\.empty\(\)\)', 'if (false)', 'postcondition')])
+
+
 def all_proofs():
-    return [
+    return [pol_proof(),
+        P('read_version_part', 'read_version_part/read_version_part_contract', canaries=2, functions=['option.cpp:read_version_part'], defines=['VERSION_PART'],
+          mutants=[('trailing_text_accepted', r'      \|\| \*c != 0\n', '', 'postcondition'),
+                   ('empty_part_accepted', r'if \(  c == in\n      \|\| ', 'if (  ', 'postcondition'),
+                   ('upper_bound_dropped', r'      \|\| val > 1023\)', '      )', 'postcondition')]),
         P('validate_signed', 'w_validate_signed/validate_signed_contract', canaries=2, functions=['option.h:BoundedOption<signed,min,max>::validate', 'option.h:Option<signed>::validate'],
           mutants=[('off_by_one_max', r'if \(val > static_cast<long>\(m_hi\)\)', 'if (val > static_cast<long>(m_hi) + 1)', 'postcondition'),
                    ('min_unchecked', r'if \(val < static_cast<long>\(m_lo\)\)', 'if (false)', 'postcondition')]),
